@@ -318,7 +318,7 @@ FRAGS = {
     "include": ("<%include file=\"inc.html\" args=\"v=a\"/><%include file=\"inc.html\"/>|\n", []),
     "namespace": ("<%namespace name=\"ns\" file=\"ns.html\"/><%namespace file=\"ns.html\" import=\"nd2\"/>${ns.nd(a)}${nd2()}${ns.nd('{NA}')}|\n", []),
     "many": ("".join("${n%d}" % i for i in range(12)) + "<%def name=\"m()\">" + "".join("${n%d}" % i for i in (5, 3, 11, 0, 7)) + "</%def>${m()}|\n", []),
-    "page": ("<%page args=\"pa='p0', a=9, zq=1, bq=2\"/>${pa}${a}${zq}${bq}|\n", []),
+    "page": ("<%page args=\"pa='p0', a=9, zq=1, bq=2\"/>${pa}${a}${zq}${bq}<%def name=\"pgd(x)\">(${x}${a}${self.uri == local.uri})</%def>~~pgd~~${pgd(0)}~~/pgd~~|\n", [("pgd", {"x": 0})]),
     # ---- order-sensitive fragments: the order of same-kind declarations is observable
     "ns_overlap_star": ("<%namespace name=\"base\" file=\"nsa.html\" import=\"*\"/><%namespace name=\"theme\" file=\"nsb.html\" import=\"*\"/>"
                         "${lab()}${only_a()}${only_b()}${base.lab()}${theme.lab()}|\n", []),
@@ -333,13 +333,29 @@ FRAGS = {
     "multi_blocks": ("<%block name=\"bz\">z${a}</%block><%block name=\"ba\">a${b}</%block><%block name=\"bm\">m${n2}</%block>|\n", []),
     "multi_nested": ("<%def name=\"host()\"><%def name=\"zz()\">z</%def><%def name=\"aa()\">a${zz()}</%def><%def name=\"mm()\">m${aa()}${n3}</%def>"
                      "${mm()}${zz()}${n4}</%def>${host()}|\n", []),
+    # ---- defs that observe their environment (self / local / parent / next, inherited members, namespaces)
+    "env_def": ("<%def name=\"envd(x=1)\">[sl=${self.uri == local.uri} "
+                "parent=${context.get('parent').uri.split('/')[-1] if context.get('parent') is not None else '-'} next=${context.get('next') is not None} "
+                "h=${self.helper(x)} a=${a} x=${x}]</%def><%def name=\"helper(k)\">H${k}${a}${local.uri == self.uri}</%def>~~envd~~${envd(0)}~~/envd~~|\n",
+                [("envd", {"x": 0})]),
+    "env_def_inh": ("<%def name=\"envp(x)\">[p=${parent.uri.split('/')[-1]} pf=${parent.foot()} sf=${self.foot()} st=${self.title()} l=${local.uri == self.uri} "
+                    "n=${context.get('next') is not None} x=${x}]</%def>~~envp~~${envp('')}~~/envp~~|\n", [("envp", {"x": ""})]),
+    "env_def_mid": ("<%def name=\"envm(x)\">[sm=${self.middef()} pm=${parent.middef()} pb=${parent.midb()} p=${parent.uri.split('/')[-1]} x=${x}]</%def>"
+                    "~~envm~~${envm(0)}~~/envm~~|\n", [("envm", {"x": 0})]),
+    "env_def_ns": ("<%namespace name=\"ens\" file=\"ns.html\"/><%def name=\"usens(x)\">{${ens.nd(x)}${self.uri == local.uri}${ens.uri.split('/')[-1]}}</%def>"
+                   "~~usens~~${usens(0)}~~/usens~~|\n", [("usens", {"x": 0})]),
     "multi_filters": ("${t | h, u, trim}${t | u, h}${' <x> ' | trim, h}${' <x> ' | h, trim}|\n", []),
     "texttag": ("<%text>${not} % evaluated <%def></%text>%% lit\n## comment\n<%doc>doc</%doc>|\n", []),
     "capture": ("<%def name=\"cp(x)\">c${x}</%def><% got = capture(cp, a) %>${got.upper()}${capture(cp, x='{NA}')}|\n", []),
 }
-INHERIT = "<%inherit file=\"base.html\"/><%block name=\"title\">T${a} {NA}</%block>"
+INHERIT = "<%inherit file=\"{PARENT}\"/><%block name=\"title\">T${a} {NA}</%block>"
+# fragments whose defs observe the inheritance environment need a parent (a given one, or any)
+REQ_INHERIT = {"env_def_inh": None, "env_def_mid": "mid.html"}
 SUPPORT = {
-    "base.html": "BASE[<%block name=\"title\">bt</%block>|${self.body()}|<%block name=\"foot\">ft${a}</%block>]\n",
+    "base.html": "BASE[<%block name=\"title\">bt</%block>|${next.body()}|<%block name=\"foot\">ft${a}</%block>]\n",
+    "mid.html": "<%inherit file=\"base.html\"/>MID[<%block name=\"midb\">mb${a}</%block>|${next.body()}]"
+                "<%def name=\"middef()\">md:${self.uri == local.uri}:${local.uri.split('/')[-1]}:${a}</%def>",
+    "kid.html": "<%inherit file=\"main.html\"/>KID(${a})<%block name=\"title\">KT</%block>",
     "ns.html": "<%def name=\"nd(x)\">ND(${x})</%def><%def name=\"nd2()\">ND2</%def>",
     "inc.html": "<%page args=\"v=0\"/>INC(${v})${a}",
     "nsa.html": "".join("<%%def name=\"%s()\">A.%s </%%def>" % (n, n) for n in ("lab", "only_a", "tag2", "tri")),
@@ -353,29 +369,34 @@ EXCLUSIVE = {"page"}
 def make_corpus(run, n_random):
     rng = run.rng
     corpus = []
+    REFS = {"include", "namespace", "ns_overlap_star", "ns_overlap_named", "ns_overlap_three", "env_def_ns"}
 
     def add(tags, inherit, encoding):
+        for t in tags:                                   # a fragment may need a parent (a particular one)
+            if t in REQ_INHERIT:
+                inherit = REQ_INHERIT[t] or inherit or "base.html"
         na = NONASCII[encoding]
         body = "TPL%03d\n" % (len(corpus) + 1) + "".join(FRAGS[t][0] for t in tags)
         if inherit:
-            body = INHERIT + body
+            body = INHERIT.replace("{PARENT}", inherit) + body
         body = body.replace("{NA}", na)
         comment = "" if encoding == "utf-8" else "## -*- coding: %s -*-\n" % encoding
         defs = [d for t in tags for d in FRAGS[t][1]]
-        corpus.append({"id": len(corpus) + 1, "tags": list(tags), "inherit": inherit, "encoding": encoding, "text": comment + body,
-                       "refs": bool(inherit or {"include", "namespace", "ns_overlap_star", "ns_overlap_named", "ns_overlap_three"} & set(tags)),
+        corpus.append({"id": len(corpus) + 1, "tags": list(tags), "inherit": inherit or "", "encoding": encoding, "text": comment + body,
+                       "refs": bool(inherit or REFS & set(tags)),
                        "defs": defs, "marker": "TPL%03d" % (len(corpus) + 1)})
     encs = ["utf-8", "cp1251", "latin-1"]
     for i, t in enumerate(sorted(FRAGS)):               # unit templates: one per feature
-        add([t], False, encs[i % 3] if t not in ("text",) else "utf-8")
-    add(["text"], True, "utf-8")
-    add(["text", "def"], False, "cp1251")
-    add(["text", "block"], True, "latin-1")
+        add([t], "", encs[i % 3] if t not in ("text",) else "utf-8")
+    for t in ("env_def", "env_def_inh", "env_def_ns", "def", "falsy", "multi_defs", "text", "block"):   # ... in chains of length 2 and 3
+        add([t], "base.html", "utf-8")
+        add([t], "mid.html", encs[len(corpus) % 3])
+    add(["text", "def"], "", "cp1251")
     tags = [t for t in sorted(FRAGS) if t not in EXCLUSIVE]
     for _ in range(n_random):
         k = rng.randint(2, 6)
         sel = rng.sample(tags, k)
-        add(sel, rng.random() < 0.3, rng.choice(encs))
+        add(sel, rng.choice(["", "", "", "base.html", "mid.html"]), rng.choice(encs))
     return corpus
 
 
@@ -438,7 +459,7 @@ def realise(tpl, d, seed, first):
         ev.append({"ev": "construct", "kind": kind, "naming": naming, "src": "m", "t": len(objs), "how": how or "compiled", "seed": seed})
         return t
 
-    def queries(t, path):
+    def queries(t, path, lookup=None):
         n = len(objs)
 
         def rc():
@@ -461,6 +482,10 @@ def realise(tpl, d, seed, first):
             data.update(args)
             r = _try(lambda: t.get_def(name).render(**data))
             ev.append({"ev": "render", "t": n, "m": "get_def", "key": "def:" + name, "dig": _d(r), "seed": seed, "path": path})
+        if lookup is not None:
+            # the template as a PARENT: a fixed child (kid.html) of it rendered through the same lookup
+            r = _try(lambda: lookup.get_template("kid.html").render(**CTX))
+            ev.append({"ev": "render", "t": n, "m": "render", "key": "kid|typed", "dig": _d(r), "seed": seed, "path": path})
         s = _try(lambda: t.source)
         ev.append({"ev": "source", "t": n, "dig": _d(s), "seed": seed, "path": path})
         c = _try(lambda: t.code)
@@ -495,7 +520,7 @@ def realise(tpl, d, seed, first):
     # 2. from a file, in memory
     t = construct("file", "uri", lambda: lk.get_template("main.html"))
     if t is not None:
-        queries(t, "file/lookup")
+        queries(t, "file/lookup", lk)
     # (a file name as the only identity cannot resolve relative <%include>/<%inherit>/<%namespace>: not generated)
     t = None if refs else construct("file", "fn", lambda: Template(filename=fn, lookup=lk))
     if t is not None:
@@ -506,7 +531,7 @@ def realise(tpl, d, seed, first):
         queries(t, "file/lookup-slash")
     tm = construct("moddir", "uri", lambda: lkm.get_template("main.html"))
     if tm is not None:
-        queries(tm, "moddir/lookup")
+        queries(tm, "moddir/lookup", lkm)
     t = None if refs else construct("moddir", "fn", lambda: Template(filename=fn, module_directory=d["md"], lookup=lkm))
     if t is not None:
         queries(t, "moddir/fn")
@@ -666,6 +691,7 @@ def classify(tpl, trace, v, unit_fail):
         # the reference is the first render event with the same key
         ref = next(x for x in trace["events"] if x.get("ev") == "render" and x.get("key") == e.get("key"))
         what = e.get("key", "").split("|")[0].split(":")[0]
+        what = "body" if what == "kid" else what          # a whole-template render either way (as parent of kid.html)
         if e.get("path") == "cmdline-with-directory":
             return "mako-render:path-with-directory:relative-file-reference"
         if ref.get("path") == e.get("path") and ref.get("m") != e.get("m"):
@@ -684,7 +710,7 @@ def classify(tpl, trace, v, unit_fail):
             dim += ":" + e.get("exc", "")
     # the features to blame: those whose one-feature template fails in the same way (unit templates are classified first)
     key = clause + ":" + dim
-    if len(tpl["tags"]) == 1 and not tpl["inherit"]:
+    if len(tpl["tags"]) == 1:
         unit_fail.setdefault(tpl["tags"][0], set()).add(key)
     feats = [t for t in tpl["tags"] if key in unit_fail.get(t, ())] or [t for t in tpl["tags"] if t in unit_fail] or tpl["tags"]
     return "trace:%s:%s" % (key, "+".join(sorted(feats)) if len(feats) <= 2 else "combo")
